@@ -3,8 +3,10 @@ CONSTANTS NB = 4
  Confs <- McConfs2
  NT = 0
  MaxDup = 1
+ Races = TRUE
  BugAddMiddle = TRUE
  BugTxLoopVar = FALSE
+ BugConfirmRace = FALSE
 INVARIANTS CacheSorted
 PROPERTY Forward
 CHECK_DEADLOCK FALSE
